@@ -2,7 +2,8 @@
     Property theorems only. *)
 From Coq Require Import Reals List ZArith.
 From Interval Require Import Real.Xreal Real.Xreal_derive Eval.Prog Eval.Tree Eval.Eval.
-From FeosVerif Require Import ProgSem AD Virial.
+From FeosVerif Require Import ProgSem ProgSemBig AD Virial VirialProg BoxBig VirialBox.
+Import ListNotations.
 Local Open Scope R_scope.
 
 (** For every function g (the reduced residual Helmholtz energy density along rho at fixed T and
@@ -31,3 +32,20 @@ Theorem C13_density_derivative : forall P n ks a e r j d,
     (fun t => match nth (nth j ks 0%nat) (eval_ext P (map Xreal (line_pt a e t))) Xnan with Xreal y => y | Xnan => v end) r d.
 Proof. exact tan_line_real. Qed.
 Print Assumptions C13_density_derivative.
+
+(** The limit statement for a regenerated program, from obligations that are all decided by computation:
+    [virial_obligations P T eps cs prec] checks that P and its first-derivative program are well scoped, that the
+    first-derivative program is defined on the whole density box [-eps, eps] (one verified interval evaluation over
+    the box), that the second-derivative program is defined at rho = 0 and that g(0) = g'(0) = 0.  Then
+    (rho g'(rho) - g(rho))/rho^2 — i.e. (Z-1)/rho of the function the program denotes at temperature T and the
+    traced composition — tends to half the second density derivative at rho = 0, the value
+    [second_virial_coefficient] returns (tied numerically by the enclosure comparison). *)
+Theorem C13_second_virial_limit_of_program : forall (P : list term) (T eps : Z * Z) (cs : list (Z * Z)) (prec : Z),
+  virial_obligations P T eps cs prec = true ->
+  let n := (2 + length cs)%nat in
+  let a := inputs_R (T :: (0, 0)%Z :: cs) in let e := inputs_R (unitZ n 1) in
+  forall x, 0 < x -> exists delta, 0 < delta /\
+    forall rho, rho <> 0 -> Rabs rho < delta ->
+      Rabs ((rho * vp_g1 P n a e rho - vp_g P a e rho) / rho ^ 2 - vp_c P n a e / 2) < x.
+Proof. exact virial_from_obligations. Qed.
+Print Assumptions C13_second_virial_limit_of_program.
